@@ -106,6 +106,22 @@ def cell_text(obj):
         return "<unprintable %s>" % type(e).__name__
 
 
+def structure_objects(state):
+    """Identities of the mutable objects that make up the line structure of a state."""
+    out = set()
+
+    def rec(prf):
+        out.add(id(prf))
+        out.add(id(prf.items))
+        for it in prf.items:
+            out.add(id(it))
+            out.add(id(it.prevs))
+            if it.subproof is not None:
+                rec(it.subproof)
+    rec(state.prf)
+    return out
+
+
 def arg_cells(state):
     """The argument objects reachable from a state, by identity, with their content."""
     return {id(it.args): (it.args, cell_text(it.args)) for _, it in walk(state) if it.args is not None}
@@ -287,25 +303,38 @@ def diagnose_import(goal, state, exported):
     """Why can an exported proof not be read back?  Re-reads the exported lines one by one the way
     server.parse_proof does and names two known causes exactly (anything else stays unnamed, so a
     different failure keeps its own key):
-      shadowed-variable  -- the line mentions a name that is declared twice with different types
-                            (a `variable` line of a subproof re-declares a variable of the context);
+      shadowed-variable  -- the line mentions a variable at a type other than the one in scope there
+                            (a `variable` line of a subproof re-declares a variable of the context
+                            that the subproof's lines still mention);
       inst-tyinst-lost   -- an Inst argument carries a type instantiation, which the textual form
                             `{x: t, ...}` drops."""
     from kernel.term import Inst
     from logic import context
     from syntax import parser
-    items = [it for _, it in walk(state)]
-    decl = {}
-    for v in state.vars:
-        decl.setdefault(v.name, set()).add(v.T)
-    for it in items:
-        if it.rule == "variable" and it.args:
-            decl.setdefault(it.args[0], set()).add(it.args[1])
-    clash = {n for n, ts in decl.items() if len(ts) > 1}
+    lines_ = walk(state)
+    items = [it for _, it in lines_]
+
+    def shadowed(k):
+        """Does line k mention a variable at a type other than the one in scope there (the context
+        variables, then the `variable` lines visible from it, the innermost last)?  Then one name
+        would need two types in one line of text.  Two declarations of a name in scopes that do
+        not overlap (sibling subproofs) are NOT this case: such a proof has to read back."""
+        pos, it = lines_[k]
+        scope = {v.name: v.T for v in state.vars}
+        for p2, it2 in lines_:
+            if it2.rule == "variable" and it2.args and (p2 == pos or visible(p2, pos)):
+                scope[it2.args[0]] = it2.args[1]
+        if it.th is None:
+            return False
+        for t in (it.th.prop,) + tuple(it.th.hyps):
+            for v in t.get_vars():
+                if v.name in scope and scope[v.name] != v.T:
+                    return True
+        return False
     tyinst_lost = False
     goal.set_context()
     try:
-        for line, it in zip(exported, items):
+        for k_, (line, it) in enumerate(zip(exported, items)):
             line = {k: line[k] for k in ("id", "th", "rule", "args", "prevs")}
             try:
                 if line["rule"] == "variable":
@@ -313,21 +342,14 @@ def diagnose_import(goal, state, exported):
                     context.ctxt.vars[nm] = parser.parse_type(str_T.strip())
                 it2 = parser.parse_proof_rule(line)
             except Exception:  # noqa
-                names = set()
-                if it.th is not None:
-                    for t in (it.th.prop,) + tuple(it.th.hyps):
-                        names.update(v.name for v in t.get_vars())
-                return "shadowed-variable" if names & clash else None
+                return "shadowed-variable" if shadowed(k_) else None
             if it2.args != it.args or (isinstance(it.args, tuple) and any(isinstance(a, Inst) for a in it.args)):
                 a1 = [a for a in (it.args if isinstance(it.args, tuple) else (it.args,)) if isinstance(a, Inst)]
                 a2 = [a for a in (it2.args if isinstance(it2.args, tuple) else (it2.args,)) if isinstance(a, Inst)]
                 if a1 and a2 and any(x.tyinst and dict(x.tyinst) != dict(y.tyinst) and dict(x) == dict(y) for x, y in zip(a1, a2)):
                     tyinst_lost = True         # explains a failing re-check only if every line reads back
             if it2.th != it.th and it.th is not None:
-                names = set()
-                for t in (it.th.prop,) + tuple(it.th.hyps):
-                    names.update(v.name for v in t.get_vars())
-                return "shadowed-variable" if names & clash else None
+                return "shadowed-variable" if shadowed(k_) else None
         if tyinst_lost:
             return "inst-tyinst-lost"
     finally:
@@ -426,6 +448,31 @@ def fresh_names(state, goal_pos, n, rng):
             except Exception:  # noqa
                 pass
     out = []
+    # a name declared in a scope that does not overlap with this one (sibling subproof) may be used
+    # again, at another type too: a user does that (`x` in both cases of a proof)
+    if rng.random() < 0.35:
+        vis_names = {v.name for v in state.vars}
+        for pos, it in walk(state):
+            if it.rule == "variable" and it.args and (pos == goal_pos or visible(pos, goal_pos)):
+                vis_names.add(it.args[0])
+        try:
+            for t in [state.get_proof_item(goal_pos).th.prop] + list(state.get_proof_item(goal_pos).th.hyps):
+                vis_names.update(v.name for v in t.get_vars())
+        except Exception:  # noqa
+            pass
+        def closed_earlier_scope(pos):
+            # declared inside the subproof of an EARLIER sibling of the goal line (or of one of its
+            # ancestors): that scope is closed where the goal is
+            for d in range(min(len(pos), len(goal_pos))):
+                if pos[d] != goal_pos[d]:
+                    return pos[d] < goal_pos[d] and len(pos) > d + 1
+            return False
+        sib = sorted({it.args[0] for pos, it in walk(state) if it.rule == "variable" and it.args
+                      and closed_earlier_scope(pos)} - vis_names)
+        rng.shuffle(sib)
+        while sib and len(out) < n:
+            out.append(sib.pop())
+        used.update(out)
     base = rng.choice(["u", "v", "w", "k", "z"])
     i = 0
     while len(out) < n:
@@ -666,7 +713,7 @@ def perturb(step, state, rng):
 
 
 IMPORT_ENCODER = None     # the Recorder of the run (stream `import`)
-METHOD_MODELLED = {"cut", "forall_elim", "apply_fact", "new_var", "cases"}
+METHOD_MODELLED = {"cut", "forall_elim", "apply_fact", "new_var", "cases", "introduction", "revert_intro"}
 SEARCH_HOOK = None        # C14 logs the searches the step generator makes (replay of history-dependent failures)
 CURRENT_RUNNER = None
 
@@ -758,11 +805,29 @@ class Runner:
                 and len(self.recorder.method_records) < self.recorder.limit:
             try:
                 mrec = (self.recorder.state(target), len(self.recorder.records))
+                self.recorder.intro_capture = [] if step.get("method_name") == "introduction" else None
+                self.recorder.revert_th = None
+                if step.get("method_name") == "revert_intro":
+                    from kernel.thm import Thm
+                    g_ = target.get_proof_item(tuple(int(x) for x in str(step["goal_id"]).split(".")))
+                    f_ = target.get_proof_item(tuple(int(x) for x in step["fact_ids"][0].split(".")))
+                    self.recorder.revert_th = self.recorder.th(Thm.implies_intr(f_.th.prop, g_.th))
             except Exception:  # noqa
                 mrec = None
         if on_copy:
             shared = sum(1 for _, it in walk(target) if it.args is not None and id(it.args) in cells)
             ctx.count("alias:args-objects-shared-with-the-copy", shared)
+            # the mutable structure (Proof objects, ProofItem objects, their prevs lists) must be the
+            # copy's own: the aliasing model shares argument objects only
+            own = structure_objects(self.state)
+            both = [k for k in structure_objects(target) if k in own]
+            if both:
+                ctx.count("alias:structure-shared-with-the-copy", len(both))
+                if not getattr(ctx, "_alias_structure_reported", False):
+                    ctx._alias_structure_reported = True
+                    ctx.broken("correspondence:c13:alias-structure",
+                               "copy.copy(state) shares %d Proof/ProofItem/prevs object(s) with the original on %s after %d steps "
+                               "(the model copies the whole line structure)" % (len(both), self.goal.ident(), len(self.trail)))
         entry = {"step": clean_step(step), "on_copy": on_copy, "adopt": adopt, "source": source}
         outcome, err = "ok", None
         self.cause = step_cause(self.state, step)
@@ -931,13 +996,16 @@ def gen_goals(rng, n):
         return f
 
     goals = []
-    vars_ = {"A": "bool", "B": "bool", "C": "bool", "P": "'a => bool", "Q": "'a => bool", "x": "'a", "y": "'a"}
+    vars_ = {"A": "bool", "B": "bool", "C": "bool", "P": "'a => bool", "Q": "'a => bool", "x": "'a", "y": "'a",
+             "T": "'b => bool", "U": "'b => bool"}
     templates = [
         "A & B --> B & A", "A | B --> B | A", "A --> B --> A", "(A --> B) --> (B --> C) --> A --> C",
         "(!x. P x & Q x) --> (!x. P x) & (!x. Q x)", "(?x. P x & Q x) --> (?x. P x) & (?x. Q x)",
         "(!x. P x --> Q x) --> (!x. P x) --> (!x. Q x)", "(?x. P x) --> (!x. P x --> Q x) --> (?x. Q x)",
         "A & (B | C) --> (A & B) | (A & C)", "~(A | B) --> ~A & ~B", "P x --> (?y. P y)", "(!y. P y) --> P x & P y",
         "A --> A", "A & B --> A", "(A --> B) --> ~B --> ~A", "x = y --> P x --> P y", "x = y --> y = x",
+        "(!x. P x --> P x) & (!z. T z --> T z)", "(!x. P x --> Q x | P x) & (!z. T z --> T z | U z)",
+        "(?x. P x) --> (?z. T z) --> (?x. P x) & (?z. T z)",
     ]
     for i in range(n):
         if rng.random() < 0.5:
@@ -977,6 +1045,26 @@ DIRECTED = [
      "steps": [
          {"method_name": "exists_elim", "goal_id": "2", "fact_ids": ["0"], "names": "u"},
          {"method_name": "exists_elim", "goal_id": "4", "fact_ids": ["1"], "names": "v"},
+     ]},
+    # one name declared in two sibling subproofs at different types: the export has to read back
+    {"name": "same-name-two-types-in-sibling-subproofs", "theory": "logic",
+     "vars": {"P": "'a => bool", "R": "'a => bool", "Q": "'b => bool", "S": "'b => bool"},
+     "prop": "(!x. P x --> R x) & (!x. Q x --> S x)",
+     "steps": [
+         {"method_name": "apply_backward_step", "goal_id": "0", "fact_ids": [], "theorem": "conjI"},
+         {"method_name": "introduction", "goal_id": "0", "fact_ids": [], "names": "x"},
+         {"method_name": "introduction", "goal_id": "1", "fact_ids": [], "names": "x"},
+     ]},
+    # a finished subproof behind the edit point: inserting lines in front of it on a copy renumbers it
+    # (ids and citations of its lines) - the original must not see that
+    {"name": "edit-before-finished-subproof", "theory": "logic", "vars": {"A": "bool", "B": "bool"},
+     "prop": "(A --> B | A) & (B --> A | B)",
+     "steps": [
+         {"method_name": "apply_backward_step", "goal_id": "0", "fact_ids": [], "theorem": "conjI"},
+         {"method_name": "introduction", "goal_id": "1", "fact_ids": []},
+         {"method_name": "apply_backward_step", "goal_id": "1.1", "fact_ids": ["1.0"], "theorem": "disjI2"},
+         {"method_name": "cut", "goal_id": "0", "fact_ids": [], "goal": "A"},
+         {"method_name": "cases", "goal_id": "1", "fact_ids": [], "case": "A"},
      ]},
     # two new gaps, the first already proved by an earlier line, the second not: the trivial-closing
     # loop of apply_tactic must not touch the second
@@ -1083,6 +1171,8 @@ def run_recorded(ctx, goal, rng, perturb_rate, export_rate, recorder=None, **kw)
                 r.apply(s, on_copy=on_copy, adopt=rng.random() < 0.3, source=kind)
         on_copy = rng.random() < 0.3
         out = r.apply(step, on_copy=on_copy, adopt=True, source="recorded")
+        if out == "ok" and perturb_rate > 0 and not r.dead and rng.random() < 0.25:
+            edit_before_finished_subproof(r, rng)
         if out not in ("ok",) and perturb_rate == 0:
             break
     r.check_frozen()
@@ -1115,6 +1205,25 @@ def same_scope_again(r, step, rng):
         r.apply(s2, on_copy=True, adopt=rng.random() < 0.5, source="again")
 
 
+def edit_before_finished_subproof(r, rng):
+    """A line-count changing step (cut / new_var) on a COPY, aimed at a line in front of a subproof
+    that has no gap left: the subproof is renumbered on the copy; the original must not notice."""
+    lines = walk(r.state)
+    done = [pos for pos, it in lines if it.subproof is not None and not it.get_sorrys()]
+    if not done:
+        return
+    d = rng.choice(done)
+    front = [pos for pos, it in lines if pos[:-1] == d[:-1] and pos[-1] < d[-1]]
+    if not front:
+        return
+    try:
+        s2 = random_step(r.state, rng, kind=rng.choice(["cut", "new_var"]), goal_pos=rng.choice(front))
+    except Timeout:
+        return
+    if s2 is not None:
+        r.apply(s2, on_copy=True, adopt=rng.random() < 0.5, source="before-finished")
+
+
 def run_walk(ctx, goal, rng, length, export_rate, recorder=None, **kw):
     """Random walk: suggestions of search_method and interleaved generated method applications."""
     r = Runner(ctx, goal, rng, export_rate, recorder, **kw)
@@ -1135,6 +1244,8 @@ def run_walk(ctx, goal, rng, length, export_rate, recorder=None, **kw):
         if out == "ok" and not r.dead and rng.random() < 0.3:
             # the same method once more in the same scope (another gap of the same proof), on a copy
             same_scope_again(r, s, rng)
+        if out == "ok" and not r.dead and rng.random() < 0.4:
+            edit_before_finished_subproof(r, rng)
     r.check_frozen()
     return r
 
@@ -1259,6 +1370,8 @@ class Recorder:
             res = orig_export(pt, *a, **kw)
             try:
                 subproof = kw["subproof"] if "subproof" in kw else (a[2] if len(a) > 2 else True)
+                if subproof and getattr(rec, "intro_capture", None) is not None and not rec.intro_capture:
+                    rec.intro_capture.append([rec.item(it) for it in res.items])
                 if rec.export_capture is not None and not subproof and not rec.export_capture:
                     from logic import logic
                     lines = []
@@ -1297,6 +1410,20 @@ class Recorder:
         forward steps = add_line_before + set_line; cases = apply_tactic with the fixed shape."""
         gid = [int(x) for x in str(step["goal_id"]).split(".")]
         after = self.state(target)
+        if name == "revert_intro":
+            if getattr(self, "revert_th", None) is None:
+                return
+            fact = [int(x) for x in step["fact_ids"][0].split(".")]
+            op = ["revert", before, gid, fact, self.revert_th, self.rcode("assume"), self.rcode("intros")]
+            self.method_records.append(("method:revert_intro", op, ["ok", after]))
+            return
+        if name == "introduction":
+            cap, self.intro_capture = getattr(self, "intro_capture", None), None
+            if not cap:
+                self.skipped += 1
+                return
+            self.method_records.append(("method:introduction", ["intro", before, gid, cap[0]], ["ok", after]))
+            return
         if name == "cases":
             new = [r for r in self.records[nrec:] if r[0] == "apply_tactic"]
             if len(new) != 1:
@@ -1698,7 +1825,8 @@ MANIFEST = {
             "(corpus of past failures first; recorded library steps, search_method suggestions, random perturbation incl. the same method "
             "again in the same scope; directed scenarios; live state or copy): contiguous numbering, citations earlier+visible, last line = "
             "stated goal, full re-check with exactly the open gaps, acceptance with no_gaps when none is left, export->import identity, copy "
-            "isolation (lines, variables, report; identity and content of every argument object). Lean: executable model of the proof tree and "
+            "isolation (lines, variables, report; identity and content of every argument object; no Proof/ProofItem/prevs object shared with a "
+            "copy). Lean: executable model of the proof tree and "
             "of add_line_before / remove_line / set_line / replace_id / find_goal / apply_tactic, of export_proof / parse_proof (structure "
             "only) and of the sharing between a state and its copy; tied to the code by replaying every recorded primitive call, adversarial "
             "primitive calls outside the preconditions, every export/import pair, the ItemID arithmetic and the heap effect of every "
@@ -1711,7 +1839,10 @@ MANIFEST = {
             "positions); copy_isolated (operations that only attach fresh argument objects - all operations as coded - leave every earlier "
             "state unchanged) with in_place_update_not_isolated_counterexample; remove_line_cited_*_counterexample (remove_line does not "
             "check that the line is uncited: its callers replace_id [proved] and revert_intro [asserted in the code, not modelled] do). "
-            "PARTIAL / NOT proved: export_import_id_partial covers proofs without subproofs only (nested: stream `import`); that the new "
+            "export_import_id (importLines (exportLines s) = s for every proof, subproofs at any depth, whose ids equal positions and whose "
+            "subproof lines have non-empty subproofs). PARTIAL / NOT proved: remove_line_callers_establish_precondition_partial covers "
+            "replace_id; revert_intro is modelled (revertIntroM with the guard not is_used, stream method:revert_intro) but that its guard "
+            "implies the precondition of remove_line is not proved; that the new "
             "conclusion line states a sequent proving the goal's is the hypothesis pt.th.can_prove(goal) asserted by fix C13-9, not a "
             "theorem; printed arguments/sequents are opaque (C07); copy isolation is proved for the aliasing model, the claim that the "
             "code only allocates is the `alias` stream.",
